@@ -99,6 +99,7 @@ def register(reg):
     _register_nodes(reg)
     _register_store(reg)
     _register_read(reg)
+    _register_read2(reg)
 
 
 def _register_nodes(reg):
@@ -180,7 +181,9 @@ def _register_store(reg):
 # read path
 
 def read_trie(E):
-    t = HM.mk_trie(E)
+    # the read path never looks at is_pruning / _ref_count (frame obligations check that it does not write them
+    # either), so one representative configuration is explored
+    t = HM.mk_trie(E, pruning=False)
     E.ghost["read_only"] = True           # no unit of the read path writes a node list
     return t
 
@@ -277,16 +280,9 @@ def tf_cases(E, ctx):
             out.insert(0, ("view", mk_bool(view_eq(E, n, rt, D0, K, ks))))
         return out
 
-    def make():
-        # callee view: a fresh node and remainder related to the argument by the view equation (for every
-        # continuation ks; recorded as a rule and instantiated where it is needed)
-        Dn = z3.Const(E.fresh_name("tf.D"), HNode)
-        n = HM.materialize(E, Dn)
-        rem = HM.nibs(E, "tf.rem")
-        E.ghost.setdefault("hview_rules", []).append((n, rem.t, D0, K))
-        return (n, rem)
-    return [Case("reached", ensures=ens, make=None if unit_mode else make),
-            Case("missing-node", raises=mtn_cls(E),
+    make = None if unit_mode else tf_result_facts(E, D0, K)
+    return [Case("reached", ensures=ens, make=make),
+            Case("missing-node", raises=mtn_cls(E), make=None if unit_mode else mtn_make(E),
                  exc=lambda e: [("hash-is-absent", mk_bool(z3.Not(z3.Select(ctx.old_has(ctx.self.fields["db"]), HM.bytes_of(e.args[0])))))
                                 if e.args else ("hash-is-absent", False)])]
 
@@ -331,3 +327,120 @@ def _register_read(reg):
                         loops={0: LoopSpec(inv_with_facts, fresh={"node": fresh_loop_node,
                                                                     "next_node_pointer": "unbound", "node_type": "unbound",
                                                                     "leaf_key": "unbound", "used_key": "unbound"})}))
+
+
+# _traverse, _get, get, exists ------------------------------------------------------------------------
+
+def root_ref_setup(E, with_key_bytes=False):
+    t = read_trie(E)
+    args = {"self": t}
+    if with_key_bytes:
+        args["key"] = E.fresh_seq("key", "bytes")
+    else:
+        args["root_hash"] = objs.hash32(E, "root")
+        args["trie_key"] = HM.nibs(E, "trie_key")
+    return args
+
+
+def node_of_root(E, root_term):
+    return HM.deref(E, HRef.RHash(root_term))
+
+
+def tf_result_facts(E, D0, K):
+    """callee view of a (node, remainder) result of the walk from D0 along K"""
+    def make():
+        Dn = z3.Const(E.fresh_name("tf.D"), HNode)
+        E.assume(mk_bool(HM.hwfp(Dn)))
+        HM.unfold_wf(E, Dn)
+        n = HM.materialize(E, Dn)
+        rem = HM.nibs(E, "tf.rem")
+        rt = rem.t
+        E.assume(mk_bool(suffix_of(rt, K)))
+        E.assume(mk_bool(z3.Implies(z3.Length(rt) > 0,
+                                    z3.Or(z3.And(HNode.is_HLeaf(Dn), z3.PrefixOf(rt, HNode.lpath(Dn))),
+                                          z3.And(HNode.is_HExt(Dn), z3.PrefixOf(rt, HNode.epath(Dn)), rt != HNode.epath(Dn))))))
+        E.assume(mk_bool(HM.hlk(Dn, rt) == HM.hlk(D0, K)))          # the view equation at the empty continuation
+        E.ghost.setdefault("hview_rules", []).append((Dn, rt, D0, K))
+        return (n, rem)
+    return make
+
+
+def mtn_make(E):
+    def make():
+        return ExcObj(mtn_cls(E), (objs.hash32(E, "missing"), HM.nibs(E, "traversed")))
+    return make
+
+
+def tf_cases_callee(E, ctx, D0, K):
+    return [Case("reached", make=tf_result_facts(E, D0, K)),
+            Case("missing-node", raises=mtn_cls(E), make=mtn_make(E))]
+
+
+def traverse_cases(E, ctx):
+    K = ops.seq_term_as(ctx.trie_key, "int")
+    root = HM.bytes_of(ctx.root_hash)
+    D0 = node_of_root(E, root)
+    if not hasattr(ctx, "outcome"):
+        return tf_cases_callee(E, ctx, D0, K)
+
+    def ens(res):
+        n, rem = res
+        rt = ops.seq_term_as(rem, "int")
+        Dn = HM.alpha(n)
+        for (Dr, rr, Ds, Ks) in E.ghost.get("hview_rules", []):
+            pass
+        return [("view", mk_bool(HM.hlk(Dn, rt) == HM.hlk(D0, K))), ("remaining-is-a-suffix", mk_bool(suffix_of(rt, K)))]
+    return [Case("reached", ensures=ens), Case("missing-node", raises=mtn_cls(E))]
+
+
+def get_internal_cases(E, ctx):
+    K = ops.seq_term_as(ctx.trie_key, "int")
+    root = HM.bytes_of(ctx.root_hash)
+    D0 = node_of_root(E, root)
+    want = HM.hlk(D0, K)
+    if hasattr(ctx, "outcome"):
+        from contracts import seqlemmas as SL
+        for (Dn, rt, Ds, Ks) in E.ghost.get("hview_rules", []):
+            HM.unfold_hlk(E, Dn, rt)
+            HM.unfold_wf(E, Dn)
+            SL.use(E, "prefix_antisym", rt, HNode.epath(Dn))
+    return [Case("value", returns=lambda: SSeq(want, "bytes")),
+            Case("missing-node", raises=mtn_cls(E), make=mtn_make(E))]
+
+
+def get_cases(E, ctx):
+    from contracts.nibbles_c import B2N
+    root = HM.bytes_of(ctx.old_field(ctx.self, "root_hash"))
+    D0 = node_of_root(E, root)
+    K = B2N(ops.seq_term_as(ctx.key, "int"))
+    want = HM.hlk(D0, K)
+    return [Case("value", returns=lambda: SSeq(want, "bytes")),
+            Case("missing-node", raises=objs.exc(E, "MissingTrieNode"))]
+
+
+def exists_cases(E, ctx):
+    from contracts.nibbles_c import B2N
+    root = HM.bytes_of(ctx.old_field(ctx.self, "root_hash"))
+    D0 = node_of_root(E, root)
+    K = B2N(ops.seq_term_as(ctx.key, "int"))
+    want = HM.hlk(D0, K)
+    return [Case("answer", returns=lambda: mk_bool(z3.Length(want) > 0)),
+            Case("missing-node", raises=objs.exc(E, "MissingTrieNode"))]
+
+
+def _register_read2(reg):
+    g = "hexary_read"
+    H = HEX + ":HexaryTrie."
+    reg.add(g, Contract(H + "_traverse", ["self", "root_hash", "trie_key"], traverse_cases,
+                        setup=lambda E: root_ref_setup(E), props=("C01", "C07", "C08")))
+    reg.add(g, Contract(H + "_get", ["self", "root_hash", "trie_key"], get_internal_cases,
+                        setup=lambda E: root_ref_setup(E), props=("C01", "C03")))
+    g = "hexary_api"
+    reg.add(g, Contract(H + "get", ["self", "key"], get_cases, setup=lambda E: root_ref_setup(E, True),
+                        props=("C01", "C03", "C07")))
+    reg.add(g, Contract(H + "exists", ["self", "key"], exists_cases, setup=lambda E: root_ref_setup(E, True),
+                        props=("C01",)))
+    reg.add(g, Contract(H + "__getitem__", ["self", "key"], get_cases, setup=lambda E: root_ref_setup(E, True),
+                        props=("C01",)))
+    reg.add(g, Contract(H + "__contains__", ["self", "key"], exists_cases, setup=lambda E: root_ref_setup(E, True),
+                        props=("C01",)))
